@@ -1,6 +1,7 @@
 import ScriggoV.Drv.Util
 import ScriggoV.Model.VMInt
 import ScriggoV.Model.Eval
+import ScriggoV.Model.Compile
 /-! line-protocol handler for C01 (stage one). Requests (after the leading `C01`):
 
 * `bin <op> <kind> <x> <y>`        — `x op y`, both of `kind`
@@ -10,12 +11,18 @@ import ScriggoV.Model.Eval
 * `convstr <src> <x>`             — `string(x)`, answers `ok <vm hex> <spec hex>`
 * `cmp <op> <kind> <x> <y>`
 * `eval <n> <v1> … <vn> <expr in prefix notation>` — the reference evaluator
+* `compile <n> <expr>`            — the emitter model on `func f(v0 T0, …, v(n-1) T(n-1)) { r := <expr>; … }`:
+  variable `i` in register `i+1`, `r` in register `n+1`; answers `ok <instr>; <instr>; …` in the
+  notation of the disassembler (`Program.Disassemble`), the final `Move … i(n+1)` included
+* `crun <n> <v1> … <vn> <expr>`   — the VM model run on that code from canonical registers; answers
+  like `eval` (the value read from the result register at the static type)
 
 The first five answer `ok <vm> <spec>`: what the generated VM terms compute on the canonical
 registers of the operands (`ok:<value>`, `okNC:<value>` if the result register is not canonical,
 `err:<fault>`) and what `Spec/GoInt` says (`ok:<value>` / `err:<fault>`). Operands outside the
 range of their kind are unparsable (`bad-op`). `eval` answers `ok <type> <value>` / `err <fault>`;
-ill-typed trees are unparsable. -/
+ill-typed trees are unparsable; `compile`/`crun` also reject trees with a foldable constant
+subtree other than a literal (the emitter never sees one). -/
 namespace ScriggoV.Drv.C01
 open ScriggoV ScriggoV.GoInt ScriggoV.VM
 
@@ -40,6 +47,53 @@ def ints : List String → Option (List Int)
     let z ← s.toInt?
     let zs ← ints rest
     pure (z :: zs)
+
+/-! ### the emitter model in the notation of the disassembler -/
+open ScriggoV.Gen.VMInt ScriggoV.Compile in
+def vopName : VOp → String
+  | .add | .addInt => "Add" | .sub | .subInt => "Sub" | .subInv | .subInvInt => "SubInv"
+  | .mul | .mulInt => "Mul" | .div | .divInt => "Div" | .rem | .remInt => "Rem"
+  | .shl | .shlInt => "Shl" | .shr | .shrInt => "Shr" | .neg => "Neg"
+  | .and => "And" | .or => "Or" | .xor => "Xor" | .andNot => "AndNot"
+
+open ScriggoV.Gen.VMInt in
+/-- `conditionName` of the disassembler (it prints the unsigned conditions like the signed ones) -/
+def condName : Cond → String
+  | .zero => "Zero" | .notZero => "NotZero" | .equal => "Equal" | .notEqual => "NotEqual"
+  | .less | .lessU => "Less" | .lessEqual | .lessEqualU => "LessEqual"
+  | .greater | .greaterU => "Greater" | .greaterEqual | .greaterEqualU => "GreaterEqual"
+
+def regName (r : Nat) : String := "i" ++ toString r
+
+open ScriggoV.Compile in
+/-- `disassembleOperand`: an immediate is printed signed, or as `uint8` under an unsigned kind -/
+def srcName (unsignedKind : Bool) : Src → String
+  | .reg r => regName r
+  | .imm b => if unsignedKind then toString b.toNat else toString b.toInt
+
+open ScriggoV.Compile in
+def instrText (tbl : List (BitVec 64)) : Instr → String
+  | .move s d => "Move " ++ srcName false s ++ " " ++ regName d
+  | .load i d => "Load " ++ (match tbl[i]? with | some v => toString v.toInt | none => "?") ++ " " ++ regName d
+  | .op .neg (.kind k) b c => "Neg " ++ k.name ++ " " ++ srcName false b ++ " " ++ regName c
+  | .op o (.kind k) b c => vopName o ++ " " ++ k.name ++ " " ++ srcName (!k.signed) b ++ " " ++ regName c
+  | .op o (.reg x) b c => vopName o ++ " " ++ regName x ++ " " ++ srcName false b ++ " " ++ regName c
+  | .convertInt s k d => "Convert " ++ regName s ++ " " ++ k.name ++ " " ++ regName d
+  | .convertUint s k d => "ConvertU " ++ regName s ++ " " ++ k.name ++ " " ++ regName d
+  | .ifInt a c y => "If " ++ regName a ++ " " ++ condName c ++ " " ++ srcName false y
+
+/-- parse `<expr>`; only well-typed trees without foldable operator nodes -/
+def treeOf (toks : List String) : Option (Eval.Expr × Eval.Ty) := do
+  let (e, left) ← Eval.parse (toks.length + 1) toks
+  if !left.isEmpty then none
+  let τ ← Eval.typeOf e
+  if !Compile.foldless e then none
+  pure (e, τ)
+
+/-- `r := <expr>` in a function whose `n` parameters are the variables -/
+def compiled (n : Nat) (e : Eval.Expr) : List Compile.Instr × List (BitVec 64) :=
+  let o := Compile.compileK (· + 1) e ⟨n + 1, []⟩
+  (o.code ++ [.move o.src (n + 1)], o.st.consts)
 
 def handle : List String → Option String
   | ["bin", op, k, x, y] => do
@@ -85,6 +139,27 @@ def handle : List String → Option String
     let _ ← Eval.typeOf e
     match Eval.eval env e with
     | .ok v => pure ("ok " ++ v.render)
+    | .error .other => none
+    | .error f => pure ("err " ++ f.name)
+  | "compile" :: n :: toks => do
+    let n ← n.toNat?
+    let (e, _) ← treeOf toks
+    let (code, tbl) := compiled n e
+    pure ("ok " ++ "; ".intercalate (code.map (instrText tbl)))
+  | "crun" :: n :: rest => do
+    let n ← n.toNat?
+    if rest.length < n then none
+    let env ← ints (rest.take n)
+    let (e, τ) ← treeOf (rest.drop n)
+    let (code, tbl) := compiled n e
+    let rf : Compile.RegFile := fun r => match env[r - 1]? with
+      | some z => if r = 0 then junk else reg z
+      | none => junk
+    match Compile.run tbl code rf with
+    | .ok (rf', _) =>
+      match τ with
+      | .int k => pure ("ok " ++ (Eval.Val.int k (val k (rf' (n + 1)))).render)
+      | .bool => pure ("ok " ++ (Eval.Val.bool (rf' (n + 1) != 0)).render)
     | .error .other => none
     | .error f => pure ("err " ++ f.name)
   | _ => none
